@@ -49,9 +49,13 @@ def strategy(tier):
     def _s(draw):
         fam = draw(st.sampled_from(["infeasible", "infeasible", "unbounded", "unbounded", "nlp", "qp"]))
         case = draw(SC.solve_case(families=(fam,), max_n=4, max_m=3, scalings=("none", "none", "custom", "gradjac"), iteration_limit=None))
-        mode = draw(st.sampled_from(["natural", "natural", "iterlimit", "deadline"]))
+        mode = draw(st.sampled_from(["natural", "natural", "iterlimit", "deadline", "realclock"]))
         case["mode"] = mode
-        if mode == "iterlimit":
+        if mode == "realclock":
+            # the real wall clock: TimeLimit must never come back before time_limit has really elapsed
+            case["time_limit"] = draw(st.sampled_from([0.02, 0.2, 2.0]))
+            case["limit"] = 400
+        elif mode == "iterlimit":
             case["limit"] = draw(st.integers(0, 40))
         elif mode == "deadline":
             case["expire_at"] = draw(st.integers(0, 120))
@@ -82,10 +86,26 @@ def check(case):
     labels = SC.config_labels(case) + [f"mode:{case['mode']}"]
     limit = int(case["limit"])
     try:
-        problem, params, x0, y0 = SC.build(case, iteration_limit=limit, **({"time_limit": 1.0} if case["mode"] == "deadline" else {}))
+        tl = {"time_limit": 1.0} if case["mode"] == "deadline" else ({"time_limit": float(case["time_limit"])} if case["mode"] == "realclock" else {})
+        problem, params, x0, y0 = SC.build(case, iteration_limit=limit, **tl)
         solver = make_tracing_solver(problem, params)
     except Exception as e:
         return excluded(f"build:{type(e).__name__}", labels)
+    if case["mode"] == "realclock":
+        import time as _time
+
+        t0 = _time.perf_counter()
+        out = run_solve(problem, params, x0, y0, solver=solver)
+        wall = _time.perf_counter() - t0
+        if out.exc is not None:
+            return trivial(f"raised:{type(out.exc).__name__}", labels)
+        labels.append(f"status:{out.result.status.name}")
+        if out.result.status == SolverStatus.TimeLimit:
+            # one-sided and therefore immune to machine load: a slow machine only makes `wall` larger
+            if wall < 0.98 * params.time_limit:
+                return violation("timelimit-before-deadline|realclock", f"TimeLimit returned after {wall:.4f}s of wall-clock time with time_limit={params.time_limit}s ({out.result.iterations} iterations)", labels)
+            return ok(labels + ["realclock_timelimit"], True, wall=wall)
+        return trivial("realclock_no_timelimit", labels)
     clock = StepClock(case.get("expire_at") if case["mode"] == "deadline" else None)
     with virtual_clock(clock):
         out = run_solve(problem, params, x0, y0, solver=solver)
